@@ -720,7 +720,8 @@ func (join *invertibleTypeJoin) Next() (bool, error) {
 		// document was found but not a parent - this can happen when inverting the join, for
 		// example when working with a secondary index.
 		if len(join.docsToYield) == 0 {
-			return false, nil
+			// nothing to yield for this document, continue with the next one of the first side
+			return join.Next()
 		}
 	}
 
